@@ -121,6 +121,8 @@ def make_case(rng):
 def run_case(spec):
     if spec.get('kind') == 'natural':
         return natural_case(spec)
+    if spec.get('kind') == 'timeout':
+        return timeout_case(spec)
     rng = random.Random(spec['seed'])
     case = make_case(rng)
     if case is None:
@@ -402,6 +404,104 @@ def natural_case(spec):
         drivers.rm(wd)
 
 
+def timeout_case(spec):
+    """Timeout fault: the FIRST attempt of one transcript X times out (TimeoutError injected at call_variant_peptides_wrapper) and
+    is retried with the reduced limits of the ladder (--max-variants-per-node 7 1 --additional-variants-per-misc 2 0). The
+    attempt's failure may cost X peptides, never another transcript: every unit that does not belong to X must return the same
+    peptides as in the run without the timeout, and their peptides must all be written."""
+    rng = random.Random(spec['seed'])
+    case = make_case(rng)
+    if case is None:
+        return {'skipped': True}
+    # clustered variants: peptides carrying two or three records (lost as soon as a reduced limit leaks to their transcript)
+    extra = []
+    for gene in case.ref.genes:
+        tx = gene.txs[0]
+        lo, hi = ((tx.cds[0] + 6, tx.cds[1] - 6) if tx.coding else (6, tx.tx_len() - 6))
+        if hi - lo > 20:
+            extra += gvfgen.make_small_variants(rng, case.ref, tx, rng.randint(2, 4), snv_p=0.9, mnv_p=0, sigma=5,
+                                                centre=rng.randint(lo + 8, hi - 8), max_indel=1)
+    name, src, small = case.files[0]
+    have = {(r.tx.id, r.id) for r in small}
+    small = small + [r for r in extra if (r.tx.id, r.id) not in have]
+    case.files[0] = (name, src, sorted({(r.tx.id, r.id): r for r in small}.values(), key=lambda v: (v.gene.id, v.gstart, v.gend, v.alt)))
+    wd = drivers.case_dir('c07t-')
+    viol = []
+    counters = {'timeout_cases': 1}
+    M = sys.modules.get('moPepGen.cli.call_variant_peptide')
+    try:
+        paths = cv.write_case(case, wd)
+        ladder = dict(max_variants_per_node=(7, 1), additional_variants_per_misc=(2, 0), timeout_seconds=180)
+        with Recorder() as r0:
+            fa, _ = cvmon.execute(case, wd, paths, out='ok.fasta', **ladder)
+        M = r0.M
+        out0 = {s for _, s in fa}
+        R0 = r0.units
+        txs = [t for t in dict.fromkeys(u[1] for u in r0.order if u[0] == 'main')]
+        all_tx = [g.txs[0].id for g in case.ref.genes]
+
+        def owner(u):
+            if u[0] == 'main':
+                return u[1]
+            for t in all_tx:
+                if u[1].startswith(f'FUSION-{t}:') or u[1].startswith(f'CIRC-{t}-') or u[1].startswith(f'CI-{t}-'):
+                    return t
+            return None
+        if len({owner(u) for u in R0}) < 2:
+            return {'skipped': True, 'counters': {'timeout_too_few_transcripts': 1}}
+        owners = [t for t in dict.fromkeys(owner(u) for u in r0.order) if t]
+        cand = owners[:-1] or owners          # a transcript that is not the last one dispatched
+        for X in rng.sample(cand, min(2, len(cand))):
+            orig = M.call_variant_peptides_wrapper
+            seen = {'n': 0}
+
+            def wrapper(*a, _X=X, **kw):
+                tx_id = kw.get('tx_id', a[0] if a else None)
+                if str(tx_id) == _X:
+                    seen['n'] += 1
+                    if seen['n'] == 1:
+                        raise TimeoutError('VERIF injected timeout')
+                return orig(*a, **kw)
+            M.call_variant_peptides_wrapper = wrapper
+            try:
+                with Recorder() as r1:
+                    fa1, _ = cvmon.execute(case, wd, paths, out=f'to_{X}.fasta', **ladder)
+            except Exception as e:
+                if 'Failed to finish transcript' in str(e) and seen['n'] > 2:
+                    counters['timeout_wallclock'] = counters.get('timeout_wallclock', 0) + 1
+                    continue
+                viol.append({'kind': 'timeout-retry-crash', 'msg': f'first attempt of {X} timed out: {type(e).__name__}: {str(e)[:200]}'})
+                continue
+            finally:
+                M.call_variant_peptides_wrapper = orig
+            counters['timeout_runs'] = counters.get('timeout_runs', 0) + 1
+            if seen['n'] < 2:
+                viol.append({'kind': 'timeout-not-retried', 'msg': f'{X}: {seen["n"]} attempts'})
+                continue
+            out1 = {s for _, s in fa1}
+            for u, peps in R0.items():
+                if owner(u) == X:
+                    continue
+                counters['timeout_other_units'] = counters.get('timeout_other_units', 0) + 1
+                if r1.units.get(u) != peps:
+                    viol.append({'kind': 'timeout-retry-alters-other-unit',
+                                 'msg': f'first attempt of {X} timed out and was retried with reduced limits; unit {u} of another transcript '
+                                        f'returned {len(r1.units.get(u) or [])} peptides instead of {len(peps)}: lost '
+                                        f'{sorted(peps - (r1.units.get(u) or set()))[:4]} gained {sorted((r1.units.get(u) or set()) - peps)[:4]}'})
+                    break
+            keep = set().union(*[p for u, p in R0.items() if owner(u) != X] or [set()]) & out0
+            if not keep <= out1:
+                viol.append({'kind': 'timeout-retry-loses-other-peptides',
+                             'msg': f'first attempt of {X} timed out: peptides of other transcripts missing from the FASTA: {sorted(keep - out1)[:5]}'})
+            if not out1 <= out0:
+                viol.append({'kind': 'timeout-retry-invents-peptides', 'msg': f'{X}: {sorted(out1 - out0)[:5]}'})
+        feat = ('timeout', len(R0), len(owners))
+        return {'nontrivial': len(R0) >= 2, 'feature': feat, 'violations': viol, 'counters': counters,
+                'sample': {'kind': 'timeout', 'units': len(R0), 'transcripts': owners, 'peptides': len(out0)}}
+    finally:
+        drivers.rm(wd)
+
+
 def check(rep, tier, seed, specs=None, n_override=None):
     quick = tier == 'quick'
     if specs is None:
@@ -411,6 +511,8 @@ def check(rep, tier, seed, specs=None, n_override=None):
         nn = (n_override or (64 if quick else 3000))
         specs += [{'kind': 'natural', 'seed': common.hash64('c07n', 'fixed' if i < nn // 2 else seed, i), 'cli': i % 8 == 0}
                   for i in range(nn)]
+        nt = (n_override or (48 if quick else 2000))
+        specs += [{'kind': 'timeout', 'seed': common.hash64('c07t', 'fixed' if i < nt // 2 else seed, i)} for i in range(nt)]
     results, lost = common.shard_run('c07', specs, timeout_s=1800 if quick else 8 * 3600)
     rep.rule = ('inputs with 2-3 transcripts carrying small variants (main unit), 1-2 fusions as donor and 1-2 circRNAs (<= 14 units); the '
                 'fault-free run records the peptides each unit returns (wrappers on call_peptide_main / _fusion / _circ_rna). For EVERY single '
@@ -422,10 +524,13 @@ def check(rep, tier, seed, specs=None, n_override=None):
                 'Natural data faults: one transcript gets a record that invalidates its whole variant series (small variant beyond the gene end; '
                 'fusion whose acceptor position is beyond the acceptor gene): with --skip-failed the run completes, tallies one invalid transcript, '
                 'never calls its units, leaves units not involving it unchanged; without --skip-failed it aborts and writes no FASTA. '
+                'Timeout faults: the first attempt of one transcript times out (injected) and is retried down the limit ladder 7,1 / 2,0: every '
+                'unit of the OTHER transcripts (inputs with clustered variants: peptides carrying 2-3 records) must return the same peptides as '
+                'without the timeout and all of them must be written. '
                 'non-trivial = case with >= 2 units; distinct = unit-count vector.')
     rep.absorb(results, lost)
     rep.exhaustive = True
     rep.extra['exhaustive_scope'] = 'all single faults of every generated case (and all pairs up to the per-case cap)'
-    for k in ('fault_runs', 'abort_runs', 'cli_fault_runs', 'cli_tally_checks', 'cli_abort_runs', 'natural_runs', 'natural_abort_runs', 'natural_cli_runs'):
+    for k in ('fault_runs', 'abort_runs', 'cli_fault_runs', 'cli_tally_checks', 'cli_abort_runs', 'natural_runs', 'natural_abort_runs', 'natural_cli_runs', 'timeout_runs', 'timeout_other_units'):
         if not rep.counters.get(k):
             rep.inconclusive.append(f'monitor {k} had zero evaluations')
